@@ -3584,6 +3584,14 @@ fn run_single(
             if k == step {
                 world.borrow_mut().kill_subscriber(way);
             }
+            // in runs that alternate the clean-session flag a third of the crash
+            // points get a second end a little later (DISCONNECT or link failure), so
+            // that one client id lives three times: persistent / clean / persistent
+            // and the other orders
+            if cfg.alternate_clean && k % 3 == 0 && step == k + 12 {
+                world.borrow_mut().rep.probe("second_end_of_the_persistent_subscriber");
+                world.borrow_mut().kill_subscriber((way + 1) % 2);
+            }
         }
         let pick_router = {
             let mut w = world.borrow_mut();
